@@ -150,6 +150,29 @@ def _type_check_operation(expression, source_file_name, ir, errors):
         _type_check_choice_operator(expression, source_file_name, errors)
     else:
         _type_check_monomorphic_operator(expression, source_file_name, errors)
+        if function == ir_data.FunctionMapping.PRESENCE:
+            _check_presence_argument_is_field(expression, source_file_name, ir, errors)
+
+
+def _check_presence_argument_is_field(expression, source_file_name, ir, errors):
+    """Checks that the argument of $present() is a field, not a parameter."""
+    for argument in expression.function.args:
+        if argument.which_expression != "field_reference":
+            # Already reported by _kind_check_field_reference.
+            continue
+        referrent = ir_util.find_object(argument.field_reference.path[-1], ir)
+        if not isinstance(referrent, ir_data.Field):
+            errors.append(
+                [
+                    error.error(
+                        source_file_name,
+                        argument.source_location,
+                        "Argument 0 of function '{}' must be a field.".format(
+                            expression.function.function_name.text
+                        ),
+                    )
+                ]
+            )
 
 
 def _type_check_monomorphic_operator(expression, source_file_name, errors):
